@@ -362,6 +362,7 @@ func checkBulkOps(p *Program, r *Report, prop string) {
 	r.Rule("R02.8", "reductions start from an element: the running value of Maximum/Minimum is initialised from an element of the view, never from a constant")
 	checkEnumerationLoops(p, r, cOnly)
 	checkReductionInit(p, r, cOnly)
+	checkFlatDecoding(p, r, cOnly)
 
 	// ---- R02.1(b,c): Unroll write-through sites
 	nSites := 0
@@ -1177,4 +1178,84 @@ func checkReductionInit(p *Program, r *Report, cOnly bool) {
 	}
 	r.Floor("R02.8", "Maximum/Minimum implementations", n, 16)
 	_ = cOnly
+}
+
+
+// sameFieldOrValue: a and b are the same value, or loads of the same field path of the same object.
+func sameFieldOrValue(a, b ssa.Value) bool {
+	if sameValue(a, b) {
+		return true
+	}
+	return sameAccessPath(origin1(a), origin1(b), 0)
+}
+
+func sameAccessPath(a, b ssa.Value, depth int) bool {
+	if a == nil || b == nil || depth > 8 {
+		return false
+	}
+	if a == b {
+		return true
+	}
+	switch x := a.(type) {
+	case *ssa.UnOp:
+		y, ok := b.(*ssa.UnOp)
+		return ok && x.Op == y.Op && sameAccessPath(x.X, y.X, depth+1)
+	case *ssa.FieldAddr:
+		y, ok := b.(*ssa.FieldAddr)
+		return ok && x.Field == y.Field && sameAccessPath(x.X, y.X, depth+1)
+	case *ssa.Field:
+		y, ok := b.(*ssa.Field)
+		return ok && x.Field == y.Field && sameAccessPath(x.X, y.X, depth+1)
+	}
+	oa, ob := origin1(a), origin1(b)
+	if (oa != a || ob != b) && oa != nil && ob != nil {
+		return oa == ob
+	}
+	return false
+}
+
+// checkFlatDecoding (R02.9): a row-major position within a view is decoded with the offsets of that view's own
+// shape: every IDivMod(pos, offs, dims) has offs = Offsets(dims) of the very dims it reduces modulo. (Decoding with
+// the stored strides of the parent array enumerates a narrower view wrongly.)
+func checkFlatDecoding(p *Program, r *Report, cOnly bool) {
+	r.Rule("R02.9", "flat positions are decoded in the view's own shape: every IDivMod(pos, offs, dims) takes offs from Offsets(dims) of the same dims (not from the array's stored strides, which describe the parent)")
+	n := 0
+	for _, fn := range dataFuncs(p) {
+		inC := relPkg(fnPkg(fn).Path()) == "data/cdata"
+		if cOnly != inC {
+			continue
+		}
+		k := 0
+		for _, c := range callsIn(fn) {
+			f := c.Common().StaticCallee()
+			if f == nil || f.Name() != "IDivMod" || len(c.Common().Args) != 3 {
+				continue
+			}
+			n++
+			k++
+			key := fmt.Sprintf("%s:flat-decoding#%d", FuncKey(fn), k)
+			offs, dims := c.Common().Args[1], c.Common().Args[2]
+			bad := ""
+			for _, o := range origins(offs) {
+				oc, ok := o.(*ssa.Call)
+				if !ok || callName(oc.Common()) != "Offsets" || len(callArgs(oc.Common())) != 1 {
+					bad = "the divisors are not the result of Offsets(shape)"
+					if n2, _, okf := loadedField(o); okf {
+						bad = fmt.Sprintf("the divisors are the array's stored field %s (strides of the parent's shape), not Offsets of the view's own shape", n2)
+					}
+					break
+				}
+				if !sameFieldOrValue(callArgs(oc.Common())[0], dims) {
+					bad = "the divisors are Offsets of a different shape than the one the position is reduced modulo"
+				}
+			}
+			if bad != "" {
+				r.Fail("R02.9", key, p.Pos(c.Pos()), "a row-major position is decoded with the wrong offsets: "+bad+" (a view narrower than its parent in a non-leading dimension is gathered with repeated and skipped elements)")
+			} else {
+				r.OK("R02.9", FuncKey(fn)+": IDivMod(pos, Offsets(dims), dims)")
+			}
+		}
+	}
+	floor := 5
+	r.Floor("R02.9", "flat-position decodings", n, floor)
 }
